@@ -454,8 +454,27 @@ func (e *Engine) runPass(vc *VC) {
 			if cl.Tag != "" {
 				tag = cl.Tag
 			}
+			if cl.OnlyProp != "" && vc.eng.prop != "" && vc.eng.prop != cl.OnlyProp {
+				continue
+			}
 			o := vc.oblige("post", fmt.Sprintf("ret%d.post.%s", k+1, tag), r.guard, vc.evalGoal(cl.Expr, penv))
-			_ = o
+			// a recorded finding with a witness class: the obligation must still hold for every entry
+			// state outside the class, so a different violation of the same clause is still reported
+			if o != nil && vc.eng.known != nil {
+				for i := range vc.eng.known.Findings {
+					kf := &vc.eng.known.Findings[i]
+					if kf.Status != "known" || kf.ClassSpec == "" || kf.Obligation != o.Name {
+						continue
+					}
+					ce, err := parseSpec(kf.ClassSpec)
+					if err != nil {
+						vc.errorf("known finding %s: class_spec: %v", kf.ID, err)
+						continue
+					}
+					cls := vc.evalBool(ce, vc.topEnv(vc.entry))
+					vc.oblige("post", fmt.Sprintf("ret%d.post.%s.outside[%s]", k+1, tag, kf.ID), and(r.guard, not(cls)), vc.evalGoal(cl.Expr, penv))
+				}
+			}
 		}
 		for _, inv := range vc.invariantsOf(con) {
 			ienv := *penv
